@@ -4,6 +4,8 @@ Streams (model `Wpull.HttpWire` vs the real code in the wpull tree under test):
   decode   (shared with C08) lock-step co-simulation of Stream.read_response/read_body;
            for C04 the compared component is `notified` = concatenation of the
            notify_read data = what the recorder appends to the response block
+  interleave 2-3 sessions of one Client open at the same time on one recorder, interleaved at
+           every event boundary, on one and on several connections                oracle only
   redirect the recorder behind the REAL WebClient/WebSession following redirects whose Location
            is not normalised: record URIs == the URL on the wire                  oracle only
   fault    the recorder's block file / write_record raises OSError(ENOSPC) once at the k-th
@@ -76,7 +78,13 @@ def stream_warc(ctx, seqs):
     lines, metas = [], []
     try:
         for i, item in enumerate(seqs):
-            exs, opts = item if isinstance(item, tuple) else (item, (True, False))
+            wiring = None
+            if isinstance(item, tuple) and len(item) == 3:
+                exs, opts, wiring = item
+                if wiring.get('argv') is not None:
+                    opts = H.options_of_argv(wiring['argv'])
+            else:
+                exs, opts = item if isinstance(item, tuple) else (item, (True, False))
             opts = tuple(opts)
             comp = i % 2 == 1
             prefix = os.path.join(tmp, 'w%d' % i)
@@ -86,9 +94,9 @@ def stream_warc(ctx, seqs):
             params = WARCRecorderParams(compress=comp, log=False, temp_dir=tmp, software_string='verif',
                                         digests=i % 3 != 0, url_table=table)
             results, conns = H.real_session_sequence(exs, recorder_params={'filename': prefix, 'params': params},
-                                                     keep_alive=opts[0], ignore_length=opts[1])
+                                                     keep_alive=opts[0], ignore_length=opts[1], wiring=wiring)
             path = prefix + ('.warc.gz' if comp else '.warc')
-            case = {'stream': 'warc', 'compress': comp, 'opts': list(opts),
+            case = {'stream': 'warc', 'compress': comp, 'opts': list(opts), 'wiring': wiring,
                     'exchanges': [{'segs': e['segs'], 'eof': e['eof'], 'method': e['method'], 'version': e['version'],
                                    'path': e['path'], 'msg': e['msg'].case(), 'surplus': e['surplus'],
                                    'req_body': e.get('req_body'), 'req_fields': e.get('req_fields', []),
@@ -402,6 +410,86 @@ def fixed_tworuns():
     return out
 
 
+# ------------------------------------------------------------------ interleave: sessions open at the same time
+def interleave_cases(rng, n):
+    bodies = [b'AAAAAAAAAAAAAAAAAAAAAAAA', b'bbbbbbbbbbbb', b'CCCCCCCCCCCCCCCCCCCCCCCCCCCCCCCC']
+    shapes = [lambda b: (b'HTTP/1.1 200 OK\r\nContent-Length: %d\r\n\r\n' % len(b), b, False),
+              lambda b: (b'HTTP/1.1 200 OK\r\nTransfer-Encoding: chunked\r\n\r\n', b'%x\r\n' % len(b) + b + b'\r\n0\r\n\r\n', False),
+              lambda b: (b'HTTP/1.0 200 OK\r\nX-Close: yes\r\n\r\n', b, True)]
+
+    def build(k, shape_ids, steps, limit):
+        msgs, pieces, eofs = [], [], []
+        for i in range(k):
+            head, framed, eof = shapes[shape_ids[i]](bodies[i])
+            msgs.append(head + framed)
+            h = len(framed) // 2
+            pieces.append([p for p in (head[:9], head[9:], framed[:h], framed[h:]) if p])
+            eofs.append(eof)
+        return {'stream': 'interleave', 'msgs': msgs, 'pieces': pieces, 'eofs': eofs, 'steps': steps, 'limit': limit}
+    cases = []
+    # B is created / started at every event boundary of A's response
+    a_events = [('create', 0), ('start', 0), ('feed', 0), ('feed', 0), ('feed', 0), ('feed', 0)]
+    for at in range(1, len(a_events) + 1):
+        for b_steps in ([('create', 1)], [('create', 1), ('start', 1)], [('create', 1), ('start', 1), ('feed', 1), ('feed', 1)]):
+            for limit in (1, 2):
+                for sa, sb in ((0, 0), (1, 2), (2, 1)):
+                    cases.append(build(2, [sa, sb], a_events[:at] + b_steps + a_events[at:], limit))
+    for _ in range(n):
+        k = rng.choice([2, 2, 3])
+        per = [[('create', i), ('start', i)] + [('feed', i)] * rng.randrange(0, 5) for i in range(k)]
+        steps = []
+        while any(per):
+            i = rng.choice([j for j in range(k) if per[j]])
+            steps.append(per[i].pop(0))
+        cases.append(build(k, [rng.randrange(3) for _ in range(k)], steps, rng.choice([1, 2, 3, 6])))
+    return cases
+
+
+def stream_interleave(ctx, cases):
+    """Oracle only.  Several sessions of one Client are open at the same time on one recorder
+    (--concurrent >= 2): every response record holds the wire bytes of ITS exchange."""
+    from wpull.warc.recorder import WARCRecorderParams
+    tmp = tempfile.mkdtemp(prefix='c04i-')
+    try:
+        for n, case in enumerate(cases):
+            prefix = os.path.join(tmp, 'i%d' % n)
+            params = WARCRecorderParams(compress=n % 2 == 1, log=False, temp_dir=tmp, software_string='verif', digests=n % 3 != 0)
+            out, requests = H.real_interleave(case, {'filename': prefix, 'params': params})
+            path = prefix + ('.warc.gz' if n % 2 == 1 else '.warc')
+            try:
+                records = H.read_warc(path)
+            except H.WarcFormatError as err:
+                ctx.fail('record-length', 'WARCRecorder', case, str(err))
+                continue
+            finally:
+                if os.path.exists(path):
+                    os.remove(path)
+            ctx.case(('interleave', tuple(case['msgs']), tuple(map(tuple, case['steps'])), case['limit']),
+                     tags=['interleave:sessions=%d' % len(case['msgs']), 'interleave:limit=%d' % case['limit'],
+                           'interleave:connections=%d' % len({c for c, i in requests})] + ['interleave:' + out[i][0] for i in sorted(out)])
+            for i, msg in enumerate(case['msgs']):
+                uri = 'http://h/s%d' % i
+                reqs = [b for f, b in records if f.get('warc-type') == 'request' and f.get('warc-target-uri') == uri]
+                resps = [(f, b) for f, b in records if f.get('warc-type') in ('response', 'revisit') and f.get('warc-target-uri') == uri]
+                res = out.get(i, ('missing', None, b''))
+                if res[0] != 'ok':
+                    ctx.fail('interleave-exchange-failed', 'Session', case, 'session %d ended %s %s although the server delivered its whole response'
+                             % (i, res[0], res[1]))
+                    continue
+                if len(reqs) != 1 or len(resps) != 1:
+                    ctx.fail('record-sequence', 'HTTPWARCRecorderSession', case, 'session %d completed; %d request / %d response records' % (i, len(reqs), len(resps)))
+                elif resps[0][1] != msg:
+                    pb = resps[0][1]
+                    d = next((j for j, (a, b) in enumerate(zip(pb, msg)) if a != b), min(len(pb), len(msg)))
+                    ctx.fail('response-block-not-wire', 'overlapping-sessions', case,
+                             'session %d of %d open at the same time: its response block has %d bytes, the server sent %d bytes for it; first '
+                             'difference at offset %d (block %r..)' % (i, len(case['msgs']), len(pb), len(msg), d, pb[:60]))
+        if cases:
+            ctx.sample({'stream': 'interleave', 'cases': len(cases)})
+    finally:
+        shutil.rmtree(tmp, ignore_errors=True)
+
+
 # ------------------------------------------------------------------ redirects: the record URIs are the URL on the wire
 LOCATIONS = [b'/page', b'/page#anchor', b'page#anchor', b'http://h/other#frag', b'HTTP://H:80/a/../Target%20Page?x=1#section-2',
              b'http://EXAMPLE.test:80/a/./b/../c', b'//h/abs/./path', b'?q=1#f', b'../up/x', b'/a b/c d', b'/p?x=a b#y',
@@ -636,6 +724,10 @@ def replay(ctx, case, kind=None, where=None):
     case = case.get('case', case)
     if case.get('stream') == 'redirect':
         stream_redirect(ctx, [case])
+    elif case.get('stream') == 'interleave':
+        c = dict(case)
+        c['steps'] = [tuple(x) for x in case['steps']]
+        stream_interleave(ctx, [c])
     elif case.get('stream') == 'overlap':
         stream_overlap(ctx, [case])
     elif case.get('stream') == 'fault':
@@ -670,7 +762,8 @@ def replay(ctx, case, kind=None, where=None):
             e['dedup'] = bool(e.get('dedup'))
             exs.append(e)
         o = tuple(case.get('opts', (True, False)))
-        stream_warc(ctx, [(exs, o), (exs, o)])
+        w = case.get('wiring')
+        stream_warc(ctx, [(exs, o, w), (exs, o, w)] if w else [(exs, o), (exs, o)])
     else:
         with_filter(ctx, lambda: c08._replay(ctx, case, kind, where))
 
@@ -713,8 +806,20 @@ def run(ctx):
     for i in range(ctx.scale(250, 3000)):
         opts = H.OPTS[1 + (i // 4) % 3] if i % 4 >= 2 else (True, False)   # half default, half spread over the other three
         seqs.append((gen_exchanges(wrng, opts, dedup=(i % 5) in (1, 2)), opts))      # 40% of the sequences run with --warc-dedup
-    stream_warc(ctx, fixed_dedup_sequences() + seqs)
+    # ... and with the client wired by the application's own set-up tasks (argv): what a
+    # --no-http-keep-alive / --ignore-length / ... run archives
+    arng = ctx.subrng('app')
+    app = []
+    for exs, _o, wiring in c08.app_sequences(arng, ctx.scale(24, 400)):
+        o = H.options_of_argv(wiring['argv'])
+        exs = [e for e in exs if not (e.get('truncated') and o[1])]
+        for k, e in enumerate(exs):
+            e['path'] = '/p%d' % k
+            e['dedup'] = False
+        app.append((exs, o, wiring))
+    stream_warc(ctx, fixed_dedup_sequences() + seqs + app)
     stream_overlap(ctx, overlap_cases(ctx.subrng('overlap'), ctx.scale(60, 1500)))
+    stream_interleave(ctx, interleave_cases(ctx.subrng('interleave'), ctx.scale(60, 1500)))
     stream_redirect(ctx, redirect_cases(ctx.subrng('redirect'), ctx.scale(60, 1500)))
     stream_fault(ctx, fault_cases(ctx.subrng('fault'), ctx.scale(80, 2000)))
     trng = ctx.subrng('tworuns')
